@@ -175,6 +175,8 @@ PerMsg(c, o, m, L, ev) ==
       THEN {} ELSE {"C01_AtMostOnce"})
   \cup (IF valid /\ endedOk /\ hooksOk /\ oc # "depfail" /\ ev.e = "cb_e" /\ r.st # 1
         THEN {"C01_Executed"} ELSE {})
+  (* processing of a valid message broke off before the task function although nothing configured to fail was in its way *)
+  \cup (IF valid /\ ev.e = "cb_e" /\ ~endedOk /\ hooksOk /\ r.st = 0 THEN {"C01_Executed"} ELSE {})
   \cup (IF ~valid /\ ended /\ (~endedOk \/ r.n # 2) THEN {"C01_SkipsHarmless"} ELSE {})
   (* ---------------- C02 ---------------- *)
   \cup (IF nAck <= 1 THEN {} ELSE {"C02_AtMostOnce"})
